@@ -66,13 +66,14 @@ static void history(int kind, VhRng& r, const Shared& S) {
 static void evaluations(const Shared& S, VhRng& r, int count, const char* hist) {
     int n = S.p->in_out_params->n; LweSample* out = new_gate_bootstrapping_ciphertext(S.p); const TFheGateBootstrappingCloudKeySet* bk = &S.sk->cloud;
     for (int q = 0; q < count; q++) {
-        int a = r.below(S.nin), b = r.below(S.nin), c = r.below(S.nin), g = r.below(5);
+        int a = r.below(S.nin), b = r.below(S.nin), c = r.below(S.nin), g = r.below(11) % 6;      // (the coefficient-domain bootstrapping is slower: half as often)
         yield_some(r);
         if (g == 0) { bootsNAND(out, S.in + a, S.in + b, bk); ev_eval("NAND", S.keyh, {S.inh[a], S.inh[b]}, hLwe(out, n), hist); }
         else if (g == 1) { bootsXOR(out, S.in + a, S.in + b, bk); ev_eval("XOR", S.keyh, {S.inh[a], S.inh[b]}, hLwe(out, n), hist); }
         else if (g == 2) { bootsMUX(out, S.in + a, S.in + b, S.in + c, bk); ev_eval("MUX", S.keyh, {S.inh[a], S.inh[b], S.inh[c]}, hLwe(out, n), hist); }
         else if (g == 3) { bootsANDYN(out, S.in + a, S.in + b, bk); ev_eval("ANDYN", S.keyh, {S.inh[a], S.inh[b]}, hLwe(out, n), hist); }
-        else { Torus32 mu = modSwitchToTorus32(1, 4); tfhe_bootstrap_FFT(out, bk->bkFFT, mu, S.in + a); ev_eval("bootstrap_FFT/4", S.keyh, {S.inh[a]}, hLwe(out, n), hist); }
+        else if (g == 4) { Torus32 mu = modSwitchToTorus32(1, 4); tfhe_bootstrap_FFT(out, bk->bkFFT, mu, S.in + a); ev_eval("bootstrap_FFT/4", S.keyh, {S.inh[a]}, hLwe(out, n), hist); }
+        else { Torus32 mu = modSwitchToTorus32(1, 8); tfhe_bootstrap(out, bk->bk, mu, S.in + a); ev_eval("bootstrap_coef/8", S.keyh, {S.inh[a]}, hLwe(out, n), hist); }       // the coefficient-domain entry points (tGswExternMulToTLwe, tfhe_blindRotate)
     }
     delete_gate_bootstrapping_ciphertext(out);
 }
@@ -111,6 +112,7 @@ int main(int argc, char** argv) {
     // sequential single-thread reference: every (gate, inputs) combination the workers may use
     { const TFheGateBootstrappingCloudKeySet* bk = &S.sk->cloud; LweSample* out = new_gate_bootstrapping_ciphertext(S.p);
       for (int a = 0; a < S.nin; a++) { tfhe_bootstrap_FFT(out, bk->bkFFT, modSwitchToTorus32(1, 4), S.in + a); ev_eval("bootstrap_FFT/4", S.keyh, {S.inh[a]}, hLwe(out, n), "ref");
+        tfhe_bootstrap(out, bk->bk, modSwitchToTorus32(1, 8), S.in + a); ev_eval("bootstrap_coef/8", S.keyh, {S.inh[a]}, hLwe(out, n), "ref");
         for (int b = 0; b < S.nin; b++) { bootsNAND(out, S.in + a, S.in + b, bk); ev_eval("NAND", S.keyh, {S.inh[a], S.inh[b]}, hLwe(out, n), "ref"); bootsXOR(out, S.in + a, S.in + b, bk); ev_eval("XOR", S.keyh, {S.inh[a], S.inh[b]}, hLwe(out, n), "ref");
           bootsANDYN(out, S.in + a, S.in + b, bk); ev_eval("ANDYN", S.keyh, {S.inh[a], S.inh[b]}, hLwe(out, n), "ref"); } }
       delete_gate_bootstrapping_ciphertext(out); }
